@@ -11,6 +11,6 @@ if diff -q /repo/src/grid/$FILE $S/src/grid/$FILE >/dev/null; then echo "MUTATIO
 diff /repo/src/grid/$FILE $S/src/grid/$FILE | head -6 || true
 cd /verif
 set +e
-VERIF_REPO=$S timeout 1800 ./check $PID "$@" 2>&1 | grep -E "^(VIOLATION|KNOWN|UNDECIDED|\[C|ENGINE)" | cut -c1-220 | head -12
+VERIF_EVIDENCE_DIR=/tmp/verif_scratch_evidence VERIF_REPO=$S timeout 1800 ./check $PID "$@" 2>&1 | grep -E "^(VIOLATION|KNOWN|UNDECIDED|\[C|ENGINE)" | cut -c1-220 | head -12
 echo "exit=$?"
 rm -rf $S
